@@ -65,6 +65,13 @@ func (g *Gen) builtin(f *Frame, v ssa.Value, b *ssa.Builtin, cc *ssa.CallCommon,
 		g.frameWrite(comp, fmt.Sprintf("(s_ref %s)", dst.S))
 		g.set(f.st, comp, fmt.Sprintf("(store %s (s_ref %s) %s)", oldh, dst.S, arr))
 		set(n)
+	case "close":
+		// close(ch): ghost flag; closing a nil or an already closed channel panics
+		ch := g.val(f, cc.Args[0])
+		g.compDecl("CHC", "(Array Int Bool)")
+		g.safety(f, fmt.Sprintf("(and (not (= %s 0)) (not (select %s %s)))", ch.S, g.get(f.st, "CHC"), ch.S), "close-chan", ins.Pos())
+		g.frameWrite("CHC", ch.S)
+		g.set(f.st, "CHC", fmt.Sprintf("(store %s %s true)", g.get(f.st, "CHC"), ch.S))
 	case "delete":
 		m, k := g.val(f, cc.Args[0]), g.val(f, cc.Args[1])
 		mt := types.Unalias(cc.Args[0].Type()).Underlying().(*types.Map)
